@@ -146,11 +146,15 @@ func (g *Gen) WrkRegisterMsg(owner lab.Acct) *wrkchaintypes.MsgRegisterWrkChain 
 	g.monik++
 	mon := fmt.Sprintf("wc%d-%s", g.monik, g.hash(4))
 	name := "name-" + g.hash(g.E.R.Range(0, 20))
-	switch g.E.R.Intn(8) {
+	switch g.E.R.Intn(10) {
 	case 0:
 		mon = strings.Repeat("m", 64)
 	case 1:
 		name = strings.Repeat("n", 128)
+	case 2: // surrounding white space is content too: "exactly the submitted moniker, name"
+		mon = []string{mon + " ", " " + mon, mon + "\n", "\t" + mon}[g.E.R.Intn(4)]
+	case 3:
+		name = []string{name + " ", " " + name, name + "\n", " "}[g.E.R.Intn(4)]
 	}
 	return &wrkchaintypes.MsgRegisterWrkChain{Moniker: mon, Name: name, GenesisHash: g.hash(g.hashLen()), BaseType: []string{"geth", "cosmos", ""}[g.E.R.Intn(3)], Owner: g.spell(owner, 10)}
 }
@@ -159,11 +163,15 @@ func (g *Gen) BeaconRegisterMsg(owner lab.Acct) *beacontypes.MsgRegisterBeacon {
 	g.monik++
 	mon := fmt.Sprintf("bc%d-%s", g.monik, g.hash(4))
 	name := "name-" + g.hash(g.E.R.Range(0, 20))
-	switch g.E.R.Intn(8) {
+	switch g.E.R.Intn(10) {
 	case 0:
 		mon = strings.Repeat("b", 64)
 	case 1:
 		name = strings.Repeat("n", 128)
+	case 2:
+		mon = []string{mon + " ", " " + mon, mon + "\n", "\t" + mon}[g.E.R.Intn(4)]
+	case 3:
+		name = []string{name + " ", " " + name, name + "\n", " "}[g.E.R.Intn(4)]
 	}
 	return &beacontypes.MsgRegisterBeacon{Moniker: mon, Name: name, Owner: g.spell(owner, 10)}
 }
